@@ -300,6 +300,7 @@ type rawHello struct {
 	TicketExt bool     // send an (empty unless Ticket set) session_ticket extension
 	ALPN      []string
 	Random    []byte
+	SSLv2     bool // SSLv2-compatible CLIENT-HELLO framing (RFC 5246 appendix E.2): no extensions, no session id
 }
 
 func u16(v int) []byte { return []byte{byte(v >> 8), byte(v)} }
@@ -310,6 +311,20 @@ func (h *rawHello) ext(id int, body []byte) []byte {
 
 // record returns the ClientHello wrapped in one handshake record (record version TLS 1.0).
 func (h *rawHello) record() []byte {
+	if h.SSLv2 {
+		// msg_length(2, high bit set) msg_type(1)=1 version(2) cipher_spec_length(2) session_id_length(2)
+		// challenge_length(2) cipher_specs(3 each: 0x00 + suite) challenge(32)
+		body := []byte{1, byte(h.Vers >> 8), byte(h.Vers)}
+		body = append(body, u16(3*len(h.Suites))...)
+		body = append(body, 0, 0, 0, 32)
+		for _, s := range h.Suites {
+			body = append(body, 0, byte(s>>8), byte(s))
+		}
+		for i := 0; i < 32; i++ {
+			body = append(body, byte(0xA0+i))
+		}
+		return append([]byte{0x80 | byte(len(body)>>8), byte(len(body))}, body...)
+	}
 	var b []byte
 	b = append(b, u16(int(h.Vers))...)
 	rnd := h.Random
@@ -455,11 +470,23 @@ func readFirstFlight(c io.Reader) (ff firstFlight, err error) {
 // ClientHello and returns the server's first flight. The server goroutine is
 // unblocked by closing the connection afterwards.
 func sendRawHello(cfg *bfe_tls.Config, h *rawHello) (ff firstFlight, srvErr error, inconclusive bool) {
+	return sendRawHelloVia(directServer(cfg), h)
+}
+
+// srvMaker turns the server end of a transport into the server-side TLS conn:
+// directly (bfe_tls.Server) or through a real bfe_tls listener's Accept.
+type srvMaker func(sEnd *bufConn) *bfe_tls.Conn
+
+func directServer(cfg *bfe_tls.Config) srvMaker {
+	return func(sEnd *bufConn) *bfe_tls.Conn { return bfe_tls.Server(sEnd, cfg) }
+}
+
+func sendRawHelloVia(mk srvMaker, h *rawHello) (ff firstFlight, srvErr error, inconclusive bool) {
 	cEnd, sEnd := bufPipe()
 	wd := newWatchdog(60*time.Second, cEnd, sEnd)
 	done := make(chan error, 1)
 	go func() {
-		srv := bfe_tls.Server(sEnd, cfg)
+		srv := mk(sEnd)
 		done <- srv.Handshake()
 		sEnd.Close()
 	}()
@@ -489,3 +516,84 @@ func (r *sniRules) Get(c *bfe_tls.Conn) *bfe_tls.Rule {
 	}
 	return r.def
 }
+
+// ---------------------------------------------------------------- in-memory listener under bfe_tls.NewListener
+
+// memListener is the inner net.Listener; the harness hands it server ends of
+// bufPipes. It counts Accept entries so that a test can wait until the accept
+// loop is idle inside Accept again (the normal state of a server between
+// connections) before it reloads the configuration.
+type memListener struct {
+	mu      sync.Mutex
+	cond    *sync.Cond
+	entered int
+	ch      chan net.Conn
+	closed  chan struct{}
+}
+
+func (l *memListener) Accept() (net.Conn, error) {
+	l.mu.Lock()
+	l.entered++
+	l.cond.Broadcast()
+	l.mu.Unlock()
+	select {
+	case c := <-l.ch:
+		return c, nil
+	case <-l.closed:
+		return nil, io.ErrClosedPipe
+	}
+}
+func (l *memListener) Close() error   { return nil }
+func (l *memListener) Addr() net.Addr { return bufAddr("mem-listener") }
+
+// tlsServer is a bfe_tls listener with its accept loop, as bfe_server runs it.
+type tlsServer struct {
+	inner     *memListener
+	ln        net.Listener
+	accepted  chan *bfe_tls.Conn
+	delivered int
+}
+
+func newTLSServer(cfg *bfe_tls.Config) *tlsServer {
+	in := &memListener{ch: make(chan net.Conn), closed: make(chan struct{})}
+	in.cond = sync.NewCond(&in.mu)
+	t := &tlsServer{inner: in, accepted: make(chan *bfe_tls.Conn)}
+	t.ln = bfe_tls.NewListener(in, cfg)
+	go func() {
+		for {
+			c, err := t.ln.Accept()
+			if err != nil {
+				return
+			}
+			t.accepted <- c.(*bfe_tls.Conn)
+		}
+	}()
+	return t
+}
+
+// waitIdle blocks until the accept loop sits in the inner Accept waiting for the next connection.
+func (t *tlsServer) waitIdle() {
+	t.inner.mu.Lock()
+	for t.inner.entered <= t.delivered {
+		t.inner.cond.Wait()
+	}
+	t.inner.mu.Unlock()
+}
+
+// reload swaps the listener's configuration the way bfe_server does
+// (bfe_tls.UpdateListener) while the accept loop is idle.
+func (t *tlsServer) reload(cfg *bfe_tls.Config) error {
+	t.waitIdle()
+	return bfe_tls.UpdateListener(t.ln, cfg)
+}
+
+func (t *tlsServer) maker() srvMaker {
+	return func(sEnd *bufConn) *bfe_tls.Conn {
+		t.waitIdle()
+		t.inner.ch <- sEnd
+		t.delivered++
+		return <-t.accepted
+	}
+}
+
+func (t *tlsServer) stop() { close(t.inner.closed) }
